@@ -6,7 +6,7 @@ to_be|from_be toggle native<->be. Each wrapper's field carries the tag its name 
 import re
 
 from ..mir import deep_strip, tstr, strip_generics, is_call, canon, subterms
-from .. import witness
+from .. import witness, derives
 
 CONFIGS = ("FULL", "XEN")
 THOROUGH_CONFIGS = ("MIN",)
@@ -89,8 +89,8 @@ def run(ctx, progs):
             bv = prog.adt_impls(path, "bytes::ByteValued")
             ctx.ob("R20.3.bytevalued", path, len(bv) == 1 and bv[0]["unsafe"], where, f"{len(bv)} ByteValued impl(s)")
             for tr in ("std::marker::Copy", "std::clone::Clone", "std::cmp::Eq", "std::cmp::PartialEq", "std::fmt::Debug", "std::default::Default"):
-                ims = [i for i in prog.adt_impls(path, tr) if all(x == i["self_ty"] for x in i.get("trait_args", []))]
-                ctx.ob("R20.3.derive", f"{path}:{tr}", len(ims) == 1 and ims[0]["derived"], where, f"{len(ims)} impl(s) derived={[i['derived'] for i in ims]}")
+                ok, why = derives.like_derive(prog, path, tr, same_self_args=True)
+                ctx.ob("R20.3.derive", f"{path}:{tr}", ok, where, f"derived, or hand-written with the derive's meaning: {why}")
             # ---- R20.1 bodies
             # to_native
             bs = prog.find(adt=path, name="to_native")
